@@ -240,7 +240,7 @@ def build_pool_item(it):
     return build((k, it[1]))
 
 
-def history_check(acc, opnames, depth, pool_items=None):
+def history_check(acc, opnames, depth, pool_items=None, part=0, nparts=1):
     pool_items = POOL_ITEMS if pool_items is None else pool_items
     ops = [O.OP_BY_NAME[n] for n in opnames]
     fresh_cache = {}
@@ -328,7 +328,7 @@ def history_check(acc, opnames, depth, pool_items=None):
     def apply_and_filter(pool, ev):
         return apply(pool, ev)
 
-    states, transitions, completed = hist.bfs(make_pool, enabled, apply_and_filter, canon, depth, on_step)
+    states, transitions, completed = hist.bfs(make_pool, enabled, apply_and_filter, canon, depth, on_step, part=part, nparts=nparts)
     acc.states += states
     acc.transitions += transitions
     acc.c['history_states'] += states
@@ -384,8 +384,8 @@ def one_history(acc, history):
     hist.pristine()
 
 
-def t_history(acc, opnames, depth):
-    history_check(acc, opnames, depth)
+def t_history(acc, opnames, depth, part=0, nparts=1):
+    history_check(acc, opnames, depth, part=part, nparts=nparts)
     acc.nontrivial += 1
     acc.sample({'history_pool': [str(it)[:120] for it in POOL_ITEMS], 'operations': len(opnames), 'depth': depth})
 
@@ -484,8 +484,10 @@ def plan(tier, seed):
         for s in range(ns):
             tasks.append(('plain', P + 'check_op', {'opname': o['name'], 'size': 's' if q else 'm', 'pair_cap': 300 if q else 3000, 'shard': s, 'nshard': ns}))
     names = [o['name'] for o in O.OPS]
-    tasks.append(('plain', P + 't_history', {'opnames': names, 'depth': 2}))
-    tasks.append(('plain', P + 't_history', {'opnames': CORE_OPS, 'depth': 3}))
+    for part in range(4):
+        tasks.append(('plain', P + 't_history', {'opnames': names, 'depth': 2, 'part': part, 'nparts': 4}))
+    for part in range(12):
+        tasks.append(('plain', P + 't_history', {'opnames': CORE_OPS, 'depth': 3, 'part': part, 'nparts': 12}))
     for hs in (range(3) if q else range(16)):
         tasks.append(('plain', P + 't_seed', {'hashseed': hs}))
     return {'tasks': tasks,
